@@ -378,7 +378,13 @@ class C14(Check):
             p = list(range(n))
             r.shuffle(p)
             perms.append(p)
-        return {"k": "T", "rows": contribs, "perms": perms}
+        present = sorted({p for s_, _ in contribs for p in s_})
+        porders = []
+        for _ in range(2):
+            o = list(range(len(present)))
+            r.shuffle(o)
+            porders.append(o)
+        return {"k": "T", "rows": contribs, "perms": perms, "porders": porders}
 
     def gen_lines(self, macros, depth=0):
         r = self.rng
@@ -519,7 +525,7 @@ class C14(Check):
 
     def encode(self, case):
         if case["k"] == "T":
-            return enc(["T", case["rows"], case["perms"]])
+            return enc(["T", case["rows"], case["perms"], case.get("porders", [])])
         files, events, cev = self.p_parts(case)
         if case["k"] == "F":
             return enc(["F", files, events, case["perms"]])
@@ -531,7 +537,7 @@ class C14(Check):
         payload = []
         for c in cases:
             orders = [c["rows"]] + [[c["rows"][i] for i in ix] for ix in c["perms"]]
-            payload.append(orders)
+            payload.append({"orders": orders, "porders": c.get("porders", [])})
         data = json.dumps(payload)
 
         def go(hs):
@@ -562,7 +568,8 @@ class C14(Check):
             lines = ["undef" if (x == "nan" and i < 3) else x for i, x in enumerate(lines)]
         return {"rows": rows, "lines": lines, "plats": o["plats"],
                 "matrix": [[fx_impl(v) for v in row] for row in o["matrix"]],
-                "div": fx_impl(o["div"]), "cov": fx_impl(o["cov"]), "avg": fx_impl(o["avg"])}
+                "div": fx_impl(o["div"]), "cov": fx_impl(o["cov"]), "avg": fx_impl(o["avg"]),
+                "avgp": [fx_impl(v) for v in o["avgp"]]}
 
     def impl_T(self, case):
         k = self.key(case)
@@ -572,6 +579,9 @@ class C14(Check):
         base = views[0]
         unstable = sorted({name for v in views[1:] for name in base if v[name] != base[name]})
         out = dict(base)
+        # the same platforms in another order must give the same average coverage
+        if any(v != base["avg"] for view in views for v in view["avgp"]):
+            unstable = sorted(set(unstable) | {"avg-platform-order"})
         out["unstable"] = unstable
         return out
 
@@ -786,11 +796,12 @@ class C14(Check):
 
     def model_view(self, case, ans):
         if case["k"] == "T":
-            base, inv, old, oldinv = ans
+            base, inv, old, oldinv, avgp = ans
             v, outside, avgrev = self.m_table(*base)
             if outside:
                 return None
-            v["unstable"] = [] if (inv == 1 and avgrev == 1) else ["model-order-dependent"]
+            v["avgp"] = [fx_model(x) for x in avgp]
+            v["unstable"] = [] if (inv == 1 and avgrev == 1 and all(x == v["avg"] for x in v["avgp"])) else ["model-order-dependent"]
             return v
         if case["k"] == "F":
             (setmap, files), inv = ans
